@@ -234,6 +234,7 @@ Proof.
   destruct (tag =? 6) eqn:E6.
   { apply N.eqb_eq in E6. subst tag.
     destruct r as [|cv r1]; [discriminate|].
+    destruct (size =? 0) eqn:Ez; [discriminate|].
     destruct (1 <? size) eqn:E1.
     - destruct (rd_bytes64 (size - 1) r1) as [[more r']|] eqn:Eb; [|discriminate]. injection H as <- <- <-.
       destruct (rd_bytes64_spec _ _ _ _ Eb) as (-> & Hok' & Hrep').
@@ -241,13 +242,13 @@ Proof.
       split; [now apply Hok'|]. exists ([6] ++ raw ++ [cv] ++ more). split; [cbn [app]; rewrite <- !app_assoc; reflexivity|].
       split; [intros t0; reflexivity|].
       intros _ r2. cbn [app dec_desc]. rewrite Em. cbn [N.eqb Pos.eqb]. rewrite <- !app_assoc. cbn [app].
-      rewrite Hreps, Ex, E1, Hrep'. reflexivity.
+      rewrite Hreps, Ex, Ez, E1, Hrep'. reflexivity.
     - injection H as <- <- <-.
       rewrite bytes_ok_cons in Hokr. apply andb_true_iff in Hokr. destruct Hokr as [_ Hokr].
       split; [assumption|]. exists ([6] ++ raw ++ [cv] ++ []). split; [cbn [app]; rewrite <- !app_assoc; reflexivity|].
       split; [intros t0; reflexivity|].
       intros _ r2. cbn [app dec_desc]. rewrite Em. cbn [N.eqb Pos.eqb]. rewrite <- !app_assoc. cbn [app].
-      rewrite Hreps, Ex, E1. reflexivity. }
+      rewrite Hreps, Ex, Ez, E1. reflexivity. }
   destruct (rd_bytes64 size r) as [[data r']|] eqn:Eb; [|discriminate]. injection H as <- <- <-.
   destruct (rd_bytes64_spec _ _ _ _ Eb) as (-> & Hok' & Hrep').
   split; [now apply Hok'|]. exists ([tag] ++ raw ++ data). split; [cbn [app]; now rewrite <- app_assoc|].
